@@ -60,8 +60,18 @@ IssuePayload(cs, n) ==
                      IF k \in DOMAIN plf THEN plf[k]
                      ELSE IF k = "_sd_alg" THEN JStr("sha-256")
                      ELSE JObj([j \in {"jwk"} |-> JwkOf(cs.hk)])])]
+\* validation comes first: claims that are not an object or that use a reserved name anywhere are refused,
+\* nothing is built, signed or put on the wire (C13)
+Refused(cs) == ~IsObj(cs.U) \/ HasReserved(cs.U)
+IssueRefuse ==
+  /\ ph = "issue" /\ Len(creds) < Len(plan) /\ "raw" \notin DOMAIN plan[Len(creds) + 1] /\ Refused(plan[Len(creds) + 1])
+  /\ LET cs == plan[Len(creds) + 1] IN
+     hist' = Append(hist, [a |-> "Issue", c |-> Len(creds) + 1, U |-> cs.U, S |-> [kind |-> cs.S.kind, paths |-> SetToSeq(cs.S.paths)], nd |-> cs.nd,
+                           key |-> cs.key, alg |-> cs.alg, hk |-> cs.hk, exp |-> cs.exp, nbf |-> cs.nbf, expect |-> "err"])
+  /\ ph' = "done"
+  /\ UNCHANGED <<plan, creds, ledger, cur, other, ghost, obs, nAdv>>
 Issue ==
-  /\ ph = "issue" /\ Len(creds) < Len(plan) /\ "raw" \notin DOMAIN plan[Len(creds) + 1]
+  /\ ph = "issue" /\ Len(creds) < Len(plan) /\ "raw" \notin DOMAIN plan[Len(creds) + 1] /\ ~Refused(plan[Len(creds) + 1])
   /\ LET n == Len(creds) + 1
          cs == plan[n]
          ip == IssuePayload(cs, n)
@@ -72,7 +82,7 @@ Issue ==
         /\ ledger' = ledger \cup {Signed(cs.key, cs.alg, jwt.id)}
         /\ ph' = IF n = Len(plan) THEN "present" ELSE "issue"
         /\ hist' = Append(hist, [a |-> "Issue", c |-> n, U |-> cs.U, S |-> [kind |-> cs.S.kind, paths |-> SetToSeq(cs.S.paths)], nd |-> cs.nd,
-                                  key |-> cs.key, alg |-> cs.alg, hk |-> cs.hk, exp |-> cs.exp, nbf |-> cs.nbf])
+                                  key |-> cs.key, alg |-> cs.alg, hk |-> cs.hk, exp |-> cs.exp, nbf |-> cs.nbf, expect |-> "ok"])
   /\ UNCHANGED <<plan, cur, other, ghost, obs, nAdv>>
 
 \* A credential whose payload and disclosures are given as such (plan element with a `raw` field): a validly signed but
@@ -243,7 +253,7 @@ Verify ==
   /\ ph' = "done"
   /\ UNCHANGED <<plan, creds, ledger, cur, other, ghost, nAdv>>
 
-Next == Issue \/ IssueRaw \/ PresentCur \/ PresentOther \/ Adversary \/ Verify
+Next == Issue \/ IssueRefuse \/ IssueRaw \/ PresentCur \/ PresentOther \/ Adversary \/ Verify
 Spec == Init /\ [][Next]_vars
 \* history is an observation variable: pure invariant runs hide it
 ViewNoHist == <<plan, creds, ledger, cur, other, ghost, obs, nAdv, ph>>
@@ -291,6 +301,9 @@ Inv_C09 == \A i \in DOMAIN obs : LET o == obs[i] IN
 \* no reserved name survives in any accepted output
 Inv_Clean == \A i \in DOMAIN obs : (Accepted(obs[i]) /\ CredOf(obs[i].m.jwt.id) # {}) => NoReserved(obs[i].r.claims)
 
+\* C13: a refused issuance leaves nothing behind; an issued credential never contains a reserved name in its claims
+Inv_C13 == /\ \A c \in {x \in DOMAIN creds : "raw" \notin DOMAIN creds[x]} : ~HasReserved(creds[c].U)
+           /\ (ph = "done" /\ obs = <<>>) => (cur = NoMsg /\ Len(creds) < Len(plan) /\ Refused(plan[Len(creds) + 1]))
 \* the constructive issuer satisfies the relational clauses used on traces (the two readings cannot drift apart)
 Inv_IssueRel == \A c \in {x \in DOMAIN creds : "raw" \notin DOMAIN creds[x]} : LET cr == creds[c]  D == DMap(cr.discs)  hkj == IF cr.hk = "" THEN NONE ELSE JwkOf(cr.hk) IN
              /\ IssueExact(cr.U, cr.S, hkj, cr.jwt.pl, D)
